@@ -177,4 +177,13 @@ Witness_PartialHeader == ~(Len(buf) > 0 /\ cur = 0)
 Witness_PartialBody   == ~(cur # 0 /\ Len(buf) > HdrLen(frames[cur].ver))
 Witness_Pushed        == ~(Len(pushed) > 0 /\ Len(delivered) > 0)
 Witness_AllDone       == ~(sent = WireLen /\ NDone = N /\ N >= MinFrames)
+
+(* One TLC run (-workers 1, CONSTRAINT WitnessScan) reports every witness whose negation is reached, *)
+(* each once: <<"WITNESS", name>>.                                                                   *)
+FWitnessNames == <<"Witness_PartialHeader", "Witness_PartialBody", "Witness_Pushed", "Witness_AllDone">>
+FWitnessReached(i) == CASE i = 1 -> ~Witness_PartialHeader [] i = 2 -> ~Witness_PartialBody
+                        [] i = 3 -> ~Witness_Pushed [] i = 4 -> ~Witness_AllDone
+ASSUME \A i \in 1..20 : TLCSet(100 + i, 0)
+WitnessScan == \A i \in 1..Len(FWitnessNames) :
+    (FWitnessReached(i) /\ TLCGet(100 + i) = 0) => (TLCSet(100 + i, 1) /\ PrintT(<<"WITNESS", FWitnessNames[i]>>))
 =============================================================================
